@@ -28,13 +28,15 @@ STARTS = {
     'yearend': '2019-12-30',     # Mon: crosses month, year and the ISO week-1 boundary
     'monthend': '2020-01-30',    # Thu: crosses a month end and a weekend
     'midmonth': '2020-03-11',    # Wed: crosses one weekend only
+    'isoweek1': '2019-12-27',    # Fri (ISO week 52); the next business days 30/31 Dec are ISO week 1 while still in December 2019:
+                                 # the weekly group keys (year, month, week) are NOT in date order
 }
 
 
 def configs(tier):
     out = []
     if tier == 'quick':
-        plan = [(2, 'yearend'), (3, 'yearend'), (4, 'yearend'), (4, 'monthend'), (3, 'midmonth')]
+        plan = [(2, 'yearend'), (3, 'yearend'), (4, 'yearend'), (4, 'monthend'), (3, 'midmonth'), (3, 'isoweek1')]
         scaled = [(3, 'yearend')]
     else:
         plan = [(n, s) for n in (2, 3, 4) for s in STARTS] + [(5, 'yearend'), (5, 'midmonth')]
